@@ -137,6 +137,7 @@ package foreach
 //
 //@ func (*runningStep).executeSubWorkflows$1
 //@   opt goroutine item
+//@   opt semaphore sem
 //@   opt token wg
 //@   requires wfstep(r) && nolocks() && sem != nil && !closed(sem) && wg != nil && itemErrors != nil && allocated(itemErrors) && allocated(itemOutputs) && 0 <= i && i < len(itemOutputs) && chcap(sem) >= 1
 //@   shared itemErrors, itemOutputs guarded_by r.lock
